@@ -71,8 +71,9 @@ impl Sm9EncKey {
             let k = k.as_slice();
             let mlen = data.len() - (65 + 32);
             let k1 = &k[0..mlen];
-            let k2 = &k[mlen..];
-            let u = sm3_hmac(k2, c2, 32);
+            let k2 = &k[mlen..mlen + 32];
+            // MAC(K2, Z) = Hv(Z || K2) (GM/T 0044.4)
+            let u = sm3_hash(&[c2, k2].concat()).to_vec();
             if !u.as_slice().eq(c3) {
                 return Err(Sm9Error::InvalidDigest);
             }
@@ -135,9 +136,10 @@ impl Sm9EncMasterKey {
         }
 
         let k1 = &k[0..data.len()];
-        let k2 = &k[data.len()..];
+        let k2 = &k[data.len()..data.len() + 32];
         let c2 = xor(k1, &data, data.len());
-        let c3 = sm3_hmac(k2, &c2, 32usize);
+        // MAC(K2, Z) = Hv(Z || K2) (GM/T 0044.4)
+        let c3 = sm3_hash(&[c2.as_slice(), k2].concat()).to_vec();
         let mut c: Vec<u8> = vec![];
         c.extend_from_slice(&c1.to_bytes_be());
         c.extend_from_slice(&c3);
